@@ -8,6 +8,7 @@ RULE = ("CMRtuTest verdict vs. the Coq brute-force determinant oracle (tu_bf, pr
         "entries outside {-1,0,1}; random and structured (network, R10, R12, F7, 1-/2-sums, SP extensions, permuted, "
         "scaled, corrupted) matrices up to 7x7 with random full parameter vectors incl. stop flags; "
         "non-trivial = distinct (cfg, matrix) with at least 2 rows, 2 columns and 3 nonzeros")
+JUDGE_API = {"tu_signed": "tu"}
 CODES = {1: "malformed record", 30: "CMRtuTest failed", 31: "verdict not written although no stop flag is set",
          32: "TU verdict differs from the definition", 33: "no violating submatrix returned", 34: "violating submatrix invalid",
          35: "violator not minimal (|det| != 2 or a proper submatrix is not TU)", 36: "non-ternary input: violator is not a single entry",
@@ -24,6 +25,8 @@ def keyfn(line, code):
     t = line.split()
     if code == 33 and t[0] == "2":
         return "algorithm=partition:no-submatrix"
+    if code == 32 and t[17] == "5" and t[18] == "5" and gen.passes_r10_count(t[19:]):
+        return "R10-count-test-accepts-non-R10-5x5"
     if code == 32 and t[0] == "0" and t[1] == "0" and t[2] == "1" and (t[5] != "0" or t[6] != "0" or t[7] != "0"):
         return "binary+camionFirst+stopflag:verdict-left-from-camion-test"
     return line
@@ -77,7 +80,22 @@ def tu_lines(ctx, want_sub):
     return lines
 
 
+def r10_lines(ctx, want_sub):
+    """Camion-signed versions (signed by the library itself, echoed in the record) of every 5x5 0/1 matrix that passes
+    the row/column count test of the R10 shortcut"""
+    cfgs = gen.decomposition_cfgs()
+    out = []
+    for idx, M in enumerate(gen.r10_pattern_matrices()):
+        for j in range(1 if ctx.quick else 4):
+            c = cfgs[(idx * 3 + j * 7) % len(cfgs)][:]
+            c[15] = want_sub
+            out.append(gen.cfg_line(c) + " " + mat_line(M, 5, 5))
+    return out
+
+
 def run(ctx):
+    ctx.stream("tu_signed", r10_lines(ctx, 0), "Camion-signed 5x5 matrices passing the R10 count test", judge_api="tu",
+               describe=lambda c: CODES.get(c, str(c)), nontrivial=nontrivial, keyfn=keyfn)
     lines = tu_lines(ctx, 0)
     ctx.stream("tu", lines, "tu verdict: exhaustive small x parameter cover, random, structured",
                describe=lambda c: CODES.get(c, str(c)), nontrivial=nontrivial, keyfn=keyfn)
